@@ -310,7 +310,16 @@ class Discharger:
                 return True
             cs = {x.split("::{closure")[0] for x in callers_.get(nm, ())} - {nm}
             return depth > 0 and bool(cs) and all(_only_from_apply(x, depth - 1) for x in cs)
-        self.choke_ok = all(_only_from_apply(f.name) for f, b, t in fb.call_sites(lambda t: callee(t) in (asp.name, bpa.name)))
+        def _checked_entry(fn_name, t_):
+            # the `apply` builtin entering a builtin's body itself, with the argument count checked there (table: a real builtin of two
+            # parameters, lists of 1, 2, 3 elements)
+            if callee(t_) == bpa.name and fn_name.split("::{closure")[0].endswith("native::base::apply"):
+                try:
+                    return evaltables.native_apply_entry(fb)[0] is True
+                except Exception:
+                    return False
+            return False
+        self.choke_ok = all(_only_from_apply(f.name) or _checked_entry(f.name, t) for f, b, t in fb.call_sites(lambda t: callee(t) in (asp.name, bpa.name)))
         ctx.extra_cov["arity_precondition"] = self.arity_ok and self.choke_ok
         self.counts = {}
         # functions that may (transitively, over the over-approximated call graph) take a RefCell borrow: holding a guard
@@ -417,7 +426,7 @@ class Discharger:
 
     # -------------------------------------------------------------- dispatcher
     def discharge(self, f, b, t, kind, what):
-        for rule in (self.d_arity, self.d_arity_user, self.d_dominating_test, self.d_checked_key, self.d_nonempty, self.d_container_variant, self.d_variant_runs,
+        for rule in (self.d_vector_table, self.d_arity, self.d_arity_user, self.d_dominating_test, self.d_checked_key, self.d_nonempty, self.d_container_variant, self.d_variant_runs,
                      self.d_table, self.d_counter, self.d_total_cast, self.d_const_index, self.d_front_insert, self.d_front_remove, self.d_bounds, self.d_map_key_present, self.d_cell_momentary, self.d_borrow, self.d_known_arith,
                      self.d_const_input, self.d_div_guarded, self.d_zero_checked, self.d_variant_runs_callers):
             r = rule(f, b, t, kind, what)
@@ -457,10 +466,27 @@ class Discharger:
         """`unwrap` / `expect` in a function whose arguments are enums of the crate: the function is evaluated abstractly
         (machine.py) once per combination of argument variants with opaque payloads; if every run completes and none reaches a
         failing unwrap, the site cannot fail for any argument (a variant is all such a function can branch on)."""
-        if kind != "unwrap" or f.arg_count == 0 or f.arg_count > 2 or "{closure" in f.name:
+        if kind not in ("unwrap", "panic") or f.arg_count == 0 or f.arg_count > 2 or "{closure" in f.name:
             return None
         from . import machine, absint
         import itertools
+        # (also a pair of enums handed over as one tuple argument, and an `unreachable!()` / `panic!()` arm instead of an unwrap)
+        combos_ = self._variant_choices(f)
+        if combos_ is not None and (kind == "panic" or any((f.local_ty(i) or "").strip().startswith("(") for i in range(1, f.arg_count + 1))):
+            n_ = 0
+            for combo in combos_:
+                n_ += 1
+                mc = machine.Machine(self.fb, max_visits=6, budget=300)
+                try:
+                    mc.run(f, list(combo))
+                except Exception:
+                    return None
+                if any(e[0] in ("panic", "diverge") for e in mc.events):
+                    return None
+            return (True, "D-variant-runs", "evaluated for every combination of the variants of its enum arguments (%d), the function never "
+                    "reaches a panicking arm or a failing unwrap" % n_)
+        if kind != "unwrap":
+            return None
         choices = []
         for i in range(1, f.arg_count + 1):
             ty = (f.local_ty(i) or "").replace("&mut ", "").replace("&", "").strip()
@@ -936,6 +962,26 @@ class Discharger:
             brs = [tt for _, tt in lmr.calls() if callee_matches(tt, "Try>::branch")]
             return allow(1, "D-const-input: the table is built from constants; its only fallible step is ParameterFormals::append on a "
                          "proper list literal", len(apps) == len(brs) and len(apps) > 0, "D-const-input")
+        return None
+
+    # -------------------------------------------------------------- D-table (vector builtins)
+    def d_vector_table(self, f, b, t, kind, what):
+        """an indexing site inside vector-ref / vector-set!: the vector table (evaltables.vector_table) runs the builtin on a two-element
+        vector with every index class — negative, in range, the length, beyond it, the ends of the i32 range — for a mutable and a
+        literal vector; when every row completes without reaching a panic the index is in range whenever the site is reached"""
+        short_ = f.name.split("::{closure")[0].rsplit("::", 1)[-1]
+        if short_ not in ("vector_ref", "vector_set") or "native::base::" not in f.name or what not in ("index", "index_mut", "BoundsCheck"):
+            return None
+        from . import evaltables
+        try:
+            safe = evaltables.vector_access_is_safe(self.fb, short_)
+        except Exception:
+            return None
+        if safe is None:
+            return (None, "D-table", "the vector table could not follow %s on every index class" % short_)
+        if safe:
+            return (True, "D-table", "vector table: %s completes on every index class (negative, in range, the length, beyond, the ends of "
+                    "the i32 range; mutable and literal vector) without reaching a panic" % short_)
         return None
 
     # -------------------------------------------------------------- D-counter / D-input-size
